@@ -4,6 +4,8 @@
 EXTENDS DatafileMC
 
 VersionsAll == {3, 4}
+CrudesAll == {"none", "size", "both"}
+CrudesQ == {"none", "size"}
 
 \* quick: <= 2 types, <= 2 items of 0..1 words, <= 2 data blocks
 TypeSetsQ == { << >>, << 0 >>, << 0, 5 >> }
